@@ -465,17 +465,42 @@ func (l *lane) nextRequest(buf []byte) (req []byte, from *net.UDPAddr, ok bool) 
 // genuine obtains the real server's response to req.
 func (l *lane) genuine(req []byte) []byte {
 	buf := make([]byte, 4096)
+	want := uidOf(req)
 	for _, w := range []time.Duration{300 * time.Millisecond, 1500 * time.Millisecond, 4 * time.Second} {
 		if _, err := l.up.Write(req); err != nil {
 			l.t.Fatalf("proxy: write to server: %v", err)
 		}
-		l.up.SetReadDeadline(time.Now().Add(w))
-		n, err := l.up.Read(buf)
-		if err == nil {
-			return bytes.Clone(buf[:n])
+		deadline := time.Now().Add(w)
+		for {
+			l.up.SetReadDeadline(deadline)
+			n, err := l.up.Read(buf)
+			if err != nil {
+				break
+			}
+			// after a slow answer the request went out again: the answer to the other copy
+			// arrives some time later and is not the answer to a later request
+			if want == nil || bytes.Equal(uidOf(buf[:n]), want) {
+				return bytes.Clone(buf[:n])
+			}
 		}
 	}
 	l.t.Fatalf("lane %d: the server does not answer a genuine request", l.idx)
+	return nil
+}
+
+// uidOf: the unique identifier of an NTS packet (nil: none)
+func uidOf(b []byte) []byte {
+	for pos := 48; pos+4 <= len(b); {
+		typ := binary.BigEndian.Uint16(b[pos:])
+		n := int(binary.BigEndian.Uint16(b[pos+2:]))
+		if n < 4 || pos+n > len(b) {
+			return nil
+		}
+		if typ == extUID {
+			return b[pos+4 : pos+n]
+		}
+		pos += n
+	}
 	return nil
 }
 
